@@ -1,0 +1,17 @@
+//go:build !verif
+
+// Package verifhook provides call-site markers for runtime verification harnesses.
+// Without the `verif` build tag every function is an empty, inlinable no-op.
+package verifhook
+
+// Enabled reports whether the package was built with the `verif` tag.
+const Enabled = false
+
+// Point marks a named call site.
+func Point(string) {}
+
+// PointKV marks a named call site with a key (e.g. a height or a path).
+func PointKV(string, any) {}
+
+// Fault marks a named call site at which a harness may inject an error.
+func Fault(string) error { return nil }
